@@ -86,6 +86,8 @@ type itemResult struct {
 	Violations []sym.Violation   `json:"violations,omitempty"`
 	Errors     []string          `json:"errors,omitempty"`
 	UnknownBr  int               `json:"unknown_branches"`
+	States     int               `json:"states"`
+	Steps      int               `json:"steps"`
 	Funcs      []string          `json:"-"`
 	ExpectSat  bool              `json:"expect_sat,omitempty"`
 }
@@ -518,6 +520,8 @@ func runItem(prog *ssa.Program, it item) (res *itemResult) {
 	res.Violations = ex.Violations
 	res.Errors = ex.Errors
 	res.UnknownBr = ex.UnknownBr
+	res.States = ex.StatesCreated()
+	res.Steps = ex.TotalSteps
 	var ids []string
 	for id := range ex.Asserts {
 		ids = append(ids, id)
@@ -594,6 +598,7 @@ func report(prop string, specs []*harnessSpec, items []item, results []*itemResu
 	exit := 0
 	inconclusive := []string{}
 	obligations, discharged, folded, queries, paths := 0, 0, 0, 0, 0
+	states, steps := 0, 0
 	var solverMs int64
 	funcs := map[string]bool{}
 	var samples []interface{}
@@ -606,6 +611,8 @@ func report(prop string, specs []*harnessSpec, items []item, results []*itemResu
 		queries += r.Queries
 		solverMs += r.SolverMs
 		paths += r.Paths
+		states += r.States
+		steps += r.Steps
 		for _, f := range r.Funcs {
 			funcs[f] = true
 		}
@@ -715,9 +722,12 @@ func report(prop string, specs []*harnessSpec, items []item, results []*itemResu
 		"violations":  violations,
 		"assumptions": meta.Assumptions,
 		"coverage": map[string]interface{}{
+			"states":              states,
+			"transitions":         steps,
+			"traces_validated_against_impl": replayed,
 			"evaluations":         queries,
 			"distinct_nontrivial": len(distinct),
-			"rule":                "evaluations = SMT queries issued (branch feasibility + obligations); distinct_nontrivial = distinct (harness instance, obligation id) pairs that were NOT folded to true by the term builder and were decided unsat by the solver",
+			"rule":                "states = symbolic states created by the executor (forks and merges included); transitions = SSA instructions executed symbolically; traces_validated_against_impl = counterexamples replayed against the natively compiled repository; evaluations = SMT queries issued (branch feasibility + obligations); distinct_nontrivial = distinct (harness instance, obligation id) pairs that were NOT folded to true by the term builder (hash-consing / normalisation) and were decided unsat by the solver",
 			"samples":             samples,
 			"obligations":         obligations,
 			"discharged":          discharged,
